@@ -521,6 +521,57 @@ example : (editMap [("a", .name "x"), ("b", .name "y")] .popitem).1 = [("a", .na
     (editMap [("a", .name "x")] (.popd "zz")) = ([("a", .name "x")], .ok) ∧
     (editMap [("a", .name "x")] (.invDel (some "x"))) = ([], .ok) := by decide
 
+/-- **`replace_child`.** An accepted replacement leaves a world whose children are the old ones
+without the replaced child, followed by the replacement under the OLD label; the maps are
+untouched; and both accesses return — exactly the set expression over the NEW children. -/
+theorem C15_replace_panel (w : W) (l : String) (new : Child) (h : (step w (.replace l new)).2 = .ok) :
+    let w' := (step w (.replace l new)).1
+    (∃ old ∈ w.children, old.label = l ∧
+      w'.children = w.children.filter (fun d => !(d.label == l)) ++ [{ new with label := l }]) ∧
+    w'.imap = w.imap ∧ w'.omap = w.omap ∧ ∀ s, w'.panel s = some (w'.spec s) := by
+  intro w'
+  have hmaps := replaceChild_maps w l new
+  have hw' : w' = (replaceChild w l new).1 := rfl
+  simp only [step] at h
+  unfold replaceChild at h hw'
+  cases hf : w.children.find? (fun d => d.label == l) with
+  | none => simp [hf] at h
+  | some old =>
+    simp only [hf] at h hw'
+    have hmem := List.mem_of_find?_eq_some hf
+    have hlab : old.label = l := by simpa using List.find?_some hf
+    split at h
+    · simp at h
+    · rw [if_neg (by assumption)] at hw'
+      split at h
+      · simp at h
+      · rw [if_neg (by assumption)] at hw'
+        split at h
+        · rename_i hp
+          rw [if_pos hp] at hw'
+          simp only [Bool.and_eq_true] at hp
+          refine ⟨⟨old, hmem, hlab, by rw [hw']⟩, hmaps.1, hmaps.2, ?_⟩
+          intro s
+          have : (w'.panel s).isSome := by
+            cases s
+            · rw [hw']; exact hp.1
+            · rw [hw']; exact hp.2
+          obtain ⟨p, hp'⟩ := Option.isSome_iff_exists.mp this
+          rw [hp', C15_io_spec w' s p hp']
+        · simp at h
+
+/-- non-vacuity: the README-like world, `n0` replaced by a node with channels 20…23 -/
+example : (step readmeW (.replace "n0" { label := "r", ins := [("a", 20), ("b", 21), ("c", 22)], outs := [("o", 23)] })).2 = .ok ∧
+    (step readmeW (.replace "n0" { label := "r", ins := [("a", 20), ("b", 21), ("c", 22)], outs := [("o", 23)] })).1.panel .outputs
+      = some [("y", 7), ("mid", 23)] ∧
+    (step readmeW (.replace "n0" { label := "r", ins := [("a", 20), ("b", 21), ("c", 22)], outs := [("o", 23)] })).1.connected 3 = false := by
+  decide
+/-- in a clash state the replacement is refused before anything changes -/
+example : (step clashW (.replace "n0" { label := "r", ins := [("a", 20), ("b", 21), ("c", 22)], outs := [("o", 23)] })).2 = .typeErr ∧
+    (step clashW (.replace "n0" { label := "r", ins := [("a", 20), ("b", 21), ("c", 22)], outs := [("o", 23)] })).1.chans .inputs
+      = clashW.chans .inputs := by
+  decide
+
 /-! ## Map objects with identity: who is affected by an edit
 
 `Model/MapHeap.lean`: map objects live in a heap, the workflow under study (`wfIn`, `wfOut`), a
@@ -622,34 +673,38 @@ theorem C15_heap_edit_is_edit (h : HS) (hi : HInv h) (sd : Side) (r : Nat)
       simp [HS.world, step, hbase, hself.1, h2, hd, editStored]
     · rw [hself.2]; simp [HS.world, step, hd, editStored]
 
-/-- **A pickle round trip changes nothing the workflow can see**: both maps come back as equal
-new objects (the world is the same), and the old objects are detached from then on. -/
+/-- **A pickle round trip**: both maps come back as equal NEW objects — the old ones are
+detached from then on —, children and values are the same, and of the connections exactly those
+to nodes outside the workflow are gone (so the panels are the set expression over the same
+children, the same maps and the cut graph). -/
 theorem C15_reload_same (h : HS) (hi : HInv h) :
-    (hreload h).world = h.world ∧
+    (hreload h).world = cutOutside h.world ∧
     ∀ sd r, h.slot (Slot.ofSide sd) = some r → (hreload h).slot (Slot.ofSide sd) ≠ some r := by
   have h1 := copySlot_inv hi .wfIn
-  refine ⟨world_ext _ _ ?_ ?_ ?_, ?_⟩
-  · simp [hreload, copySlot_base]
-  · simp only [hreload]; rw [copySlot_deref h1, copySlot_deref hi]
-  · simp only [hreload]; rw [copySlot_deref h1, copySlot_deref hi]
+  have hd : ∀ s, (hreload h).deref s = h.deref s := by
+    intro s
+    have : (hreload h).deref s = (copySlot (copySlot h .wfIn) .wfOut).deref s := rfl
+    rw [this, copySlot_deref h1, copySlot_deref hi]
+  refine ⟨?_, ?_⟩
+  · have hb : (hreload h).base = cutOutside h.base := by simp [hreload, copySlot_base]
+    simp [HS.world, hd, hb, cutOutside]
   · intro sd r hs hs'
     have hlt := stored_lt hi _ r hs
     have hd : ∃ m, h.deref (Slot.ofSide sd) = some m := by
       obtain ⟨o, ho, _⟩ := hi.stored _ r hs
       exact ⟨o.items, by simp [HS.deref, hs, ho]⟩
     obtain ⟨m, hm⟩ := hd
+    have hsl : ∀ s, (hreload h).slot s = (copySlot (copySlot h .wfIn) .wfOut).slot s := fun _ => rfl
     cases sd with
     | inputs =>
       simp only [Slot.ofSide] at hs hs' hm
-      simp only [hreload] at hs'
-      rw [copySlot_slot_other _ _ _ (by decide), copySlot_slot_self h _ m hm] at hs'
+      rw [hsl, copySlot_slot_other _ _ _ (by decide), copySlot_slot_self h _ m hm] at hs'
       simp at hs'; omega
     | outputs =>
       simp only [Slot.ofSide] at hs hs' hm
       have hm' : (copySlot h .wfIn).deref .wfOut = some m := by rw [copySlot_deref hi]; exact hm
       have e2 := copySlot_len h .wfIn
-      simp only [hreload] at hs'
-      rw [copySlot_slot_self _ _ m hm'] at hs'
+      rw [hsl, copySlot_slot_self _ _ m hm'] at hs'
       simp at hs'; omega
 
 /-- **At any moment, with object identity.** After every heap history the stored maps of the
@@ -746,3 +801,4 @@ end PwVerif.C15
 #print axioms PwVerif.C15.C15_heap_edit_is_edit
 #print axioms PwVerif.C15.C15_reload_same
 #print axioms PwVerif.C15.C15_at_any_moment_heap
+#print axioms PwVerif.C15.C15_replace_panel
